@@ -22,7 +22,8 @@ from .. import core, motlutil
 
 FIELDS = motlutil.FIELDS
 U = 8.0
-INVS = ["TypeOK", "C09_ExactInsideSet", "C09_SurvivorsUntouched", "C09_PerTomogramDims", "C09_WholeImpliesCenter"]
+INVS = ["TypeOK", "C09_ExactInsideSet", "C09_SurvivorsUntouched", "C09_PerTomogramDims", "C09_WholeImpliesCenter",
+        "C09_MaskFormIrrelevant"]
 POSF = ["x", "y", "z", "shift_x", "shift_y", "shift_z"]
 OTHER = [f for f in FIELDS if f not in POSF + ["subtomo_id", "tomo_id"]]
 
@@ -110,10 +111,27 @@ class Args:
                                           "y": [q[2] / U for q in op["pts"]], "z": [q[3] / U for q in op["pts"]]})
         return self.pts[key]
 
+    def stored(self, arr, form, t):
+        """One mask in the storage form the call uses: the array itself or the path of a file written here from
+        scratch (independent writers of mbt/parsers.py: payload with x fastest, i.e. voxel (i, j, k) at i + nx (j + ny k))."""
+        if form == "array":
+            return arr
+        from .. import parsers
+        path = os.path.join(self.workdir, "mask_%d_%d_%s.%s" % (os.getpid(), self.variant % 1000, t, form))
+        dims = tuple(int(v) for v in arr.shape)
+        values = [float(v) for v in arr.transpose(2, 1, 0).ravel()]
+        if form == "em":
+            parsers.write_em(path, dims, "float32", values)
+        else:
+            parsers.write_mrc(path, dims, "float32", values)
+        return path
+
     def get_masks(self, op):
         """(tomo_list, tomo_masks): the listed tomograms in an order that depends on the variant (the property does
-        not depend on it), the masks in the same order; one array for all when the masks are identical."""
-        key = json.dumps([op["tl"], [m[0] for m in op["masks"]]])
+        not depend on it), the masks in the same order and in the storage form of the call (arrays, .em / .mrc / .rec
+        paths, or a mixture); one object for all when the masks are identical."""
+        form = op.get("form", "array")
+        key = json.dumps([op["tl"], [m[0] for m in op["masks"]], form])
         if key not in self.masks:
             arrs = {m[0]: mask_array(m[1], m[2]) for m in op["masks"]}
             tl = list(op["tl"])
@@ -121,9 +139,14 @@ class Args:
             tl = tl[r:] + tl[:r]
             if self.variant % 7 == 3:
                 tl = tl[::-1]
+            forms = ["array", "em", "mrc", "rec"]
+            fm = {t: (form if form != "mixed" else forms[(self.variant + j) % 4]) for j, t in enumerate(tl)}
             same = all(arrs[tl[0]].shape == arrs[t].shape and np.array_equal(arrs[tl[0]], arrs[t]) for t in tl)
             tomo_list = tl if self.variant % 2 else np.array(tl)
-            arg = arrs[tl[0]] if (same and self.variant % 3 == 0) else [arrs[t] for t in tl]
+            if same and self.variant % 3 == 0:
+                arg = self.stored(arrs[tl[0]], fm[tl[0]], "all")
+            else:
+                arg = [self.stored(arrs[t], fm[t], str(t)) for t in tl]
             self.masks[key] = (tomo_list, arg)
         return self.masks[key]
 
@@ -236,6 +259,9 @@ def run_case(ctx, case, steps, variant, kind):
         cur = exp["ps"]
         st = ctx.extra.setdefault("calls_by_filter", {})
         st[op["name"]] = st.get(op["name"], 0) + 1
+        if op["name"] == "mask":
+            sf = ctx.extra.setdefault("mask_calls_by_storage_form", {})
+            sf[op.get("form", "array")] = sf.get(op.get("form", "array"), 0) + 1
 
 
 def compare(ctx, motl, cur, op, exp, rec, sig):
@@ -370,7 +396,8 @@ def gen_mask_op(rng, ps, tomos, extra, dmap):
                         zero.add(w)
                     else:
                         zero.discard(w)
-    return {"name": "mask", "tl": tl, "masks": [[t, shape, sorted(list(z) for z in zero)] for t, shape, zero in masks]}
+    return {"name": "mask", "form": rng.choice(["array", "array", "em", "mrc", "rec", "mixed"]), "tl": tl,
+            "masks": [[t, shape, sorted(list(z) for z in zero)] for t, shape, zero in masks]}
 
 
 # lattice offsets with an exactly representable length: (vector, length) - Pythagorean triples / quadruples
@@ -491,6 +518,8 @@ def run(ctx):
         "reference points remove at distance <= r, including particles exactly on the radius (lattice coordinates and "
         "radii make d = r exact in binary floating point; ties are generated from Pythagorean offsets)",
         "mask cases avoid positions and masks on which int(c) and c-1 indexing disagree (flagged by the spec)",
+        "masks are handed over as arrays, as .em / .mrc / .rec paths (files written by mbt/parsers.py, x fastest) or mixed; "
+        "voxel (i, j, k) is the same voxel in every storage form",
         "projection: float fields compared bit-exactly with lattice values / fixed per-id values",
     ]
     only = getattr(ctx, "only", None)
